@@ -130,6 +130,17 @@ CLAIMED["C17"] = (
     "shells and the quotient (squared form) and compares with the implementation. Symmetry/scale/self/independent per-shell "
     "reference, loader-level FSC of masked half averages and seed reproducibility: oracle.",
     "Coq theorems over R and Z/Q + in-Coq correspondence on DFT bins")
+CLAIMED["C10"] = (
+    "Theorems (Coq): TemplateMaskCache as a transition system over the atomic dict operations of get/set (dict.get, iter(values), "
+    "next, __setitem__, compute, set) with CPython's 'size changed during iteration' rule: with Backend.__eq__ (structural anchor) "
+    "no schedule of any number of threads and calls raises, and every call returns the canonical template/mask (invariant by "
+    "induction over the schedule); returned values are canonical under every schedule even without key equality; a 7-step "
+    "witness schedule raises for the pre-fix code; executing pure tasks in any covering order yields map f; declared landscape "
+    "shape: refuted witness (known finding) + partial (integer limit, no upsampling). Tie: anchors regenerated; random "
+    "schedules are replayed deterministically on the real TemplateMaskCache (gated dict subclass, lock-step scheduler, real "
+    "Backend keys and identity keys) and compared with the model inside Coq; declared vs computed shapes compared inside Coq. "
+    "Scheduler x worker-count x chunking matrix with a 1e-6 switch interval: oracle.",
+    "Coq invariant proofs over schedules + deterministic schedule replay correspondence")
 NOT_YET = "machinery for this property is not built yet in this revision (see DESIGN.md §6 for the planned model)"
 
 def main():
